@@ -33,8 +33,10 @@ def make_ws(ws, r, workers=None):
             "sleep %s" % sleeps[n],
             "{ echo %s; %s } > %s.out" % (n, " ".join("cat %s.out;" % d for d in deps[n]), n),
             'echo "E %s $(date +%%s.%%N) $$" >> "$VTRACE"' % n])
-        targets.append({"name": n, "command": cmd, "dependencies": [":" + d for d in deps[n]], "outputs": [n + ".out"],
-                        "inputs": ["in.txt"]})
+        t = {"name": n, "command": cmd, "dependencies": [":" + d for d in deps[n]], "outputs": [n + ".out"], "inputs": ["in.txt"]}
+        if all_ignore or r.chance(1, 2):
+            t["timeout"] = r.choice(["5m", "300s", "1h"])     # a timeout that never strikes: interrupt handling must not depend on it
+        targets.append(t)
     os.makedirs(os.path.join(ws, "p"), exist_ok=True)
     json.dump({"targets": targets}, open(os.path.join(ws, "p", "BUILD.json"), "w"), indent=1)
     open(os.path.join(ws, "p", "in.txt"), "w").write("input")
